@@ -350,6 +350,10 @@ func (state *RuntimeState) u2fSignResponse(w http.ResponseWriter, r *http.Reques
 		http.Error(w, "challenge missing", http.StatusBadRequest)
 		return
 	}
+	if localAuth.ExpiresAt.Before(time.Now()) {
+		http.Error(w, "challenge expired", http.StatusBadRequest)
+		return
+	}
 
 	//var err error
 	for i, u2fReg := range profile.U2fAuthData {
